@@ -155,13 +155,14 @@ func (m *Manager) Close() error {
 	m.lock.Lock()
 	defer m.lock.Unlock()
 
+	var firstErr error
 	for _, a := range m.allocations {
-		if err := a.Close(); err != nil {
-			return err
+		if err := a.Close(); err != nil && firstErr == nil {
+			firstErr = err
 		}
 	}
 
-	return nil
+	return firstErr
 }
 
 // CreateAllocation creates a new allocation and starts relaying.
